@@ -311,7 +311,12 @@ def run(rep: vk.Report):
         xv = _VVr(r.choice(["x", "q", "v"]), r.randint(2, 4))
         nx = xv.size
         fam = r.choice(["rows_common_rhs", "rows_common_rhs", "sums_of_views", "scaled_rows", "with_duplicates", "mixed_sense", "quadratic_forms",
-                        "one_object_two_senses"])
+                        "one_object_two_senses", "sparse_in_wide_vector", "sparse_in_wide_vector"])
+        if fam == "sparse_in_wide_vector":
+            # a 12-vector (x[10], x[11] sort before x[2] as strings) and relations that each touch two or three of its elements, with
+            # distinct weights: the relation is over the elements it names, whatever their place in the solver's vector
+            xv = _VVr(r.choice(["x", "q"]), 12)
+            nx = 12
         A = np.array([[float(r.choice([1, 2, -1, 3, 0.5])) + 0.25 * ((i + j) % 3) for j in range(nx)] for i in range(nrow)])
         rel = []          # (constraint, type, numpy fun, numpy jac)
         if fam in ("rows_common_rhs", "with_duplicates"):
@@ -330,6 +335,20 @@ def run(rep: vk.Report):
         elif fam == "scaled_rows":
             for i in range(nrow):
                 rel.append(((A[i] @ xv) * 2.0 >= -3.0, "ineq", (lambda x, i=i: 2.0 * (A[i] @ x) + 3.0), (lambda x, i=i: 2.0 * A[i])))
+        elif fam == "sparse_in_wide_vector":
+            for _ in range(r.randint(2, 4)):
+                idx = sorted(r.sample(range(12), r.choice([2, 2, 3])))
+                if r.random() < 0.7 and not any(i_ >= 10 for i_ in idx):
+                    idx[-1] = r.choice([10, 11])
+                    idx = sorted(set(idx))
+                wts = [1.0 + 2.0 * k_ for k_ in range(len(idx))]
+                row = np.zeros(12)
+                for i_, w_ in zip(idx, wts):
+                    row[i_] = w_
+                expr_ = sum((w_ * xv[i_] for i_, w_ in list(zip(idx, wts))[1:]), wts[0] * xv[idx[0]])
+                sense = r.choice(["<=", ">="])
+                sg = -1.0 if sense == "<=" else 1.0
+                rel.append((apply_sense(expr_, sense, 4.0), "ineq", (lambda x, row=row, sg=sg: sg * (row @ x - 4.0)), (lambda x, row=row, sg=sg: sg * row)))
         elif fam == "one_object_two_senses":
             # ONE expression object held by constraints of different sense (a range written with the public Constraint class)
             from optyx import Constraint as _Cn
